@@ -572,8 +572,10 @@ namespace ipr::impl {
       template<class T>
       void
       Overload::push_back(master_decl_data<T>* data) {
-         entries.insert(data, node_compare());
+         // Note: chaining the entry in cannot fail; do it last, so that an entry
+         // is found by type only when it is also recorded as a master.
          masters.push_back(data);
+         entries.insert(data, node_compare());
       }
 
       // -- Directives --
@@ -1482,9 +1484,21 @@ namespace ipr::impl {
 
       Optional<ipr::Overload> Scope::operator[](const ipr::Name& n) const
       {
-         if (impl::Overload* ovl = overloads.find(n, node_compare()))
+         // Note: an overload set that holds no declaration (all that is left of a
+         // declaration that could not be completed) does not count.
+         if (impl::Overload* ovl = overloads.find(n, node_compare()); ovl != nullptr and not ovl->masters.empty())
             return { ovl };
          return { };
+      }
+
+      // Get the overload set for a name that is about to be declared in this scope.
+      // Room for the coming declaration is secured in the scope beforehand, so that
+      // add_member() cannot fail once the declaration is registered in its decl-set:
+      // a declaration is either both in its decl-set and in the scope, or in neither.
+      impl::Overload* Scope::overload_set(const ipr::Name& n)
+      {
+         decls.seq.make_room();
+         return overloads.insert(n, node_compare());
       }
 
       template<class T>
@@ -1496,7 +1510,7 @@ namespace ipr::impl {
 
       impl::Alias*
       Scope::make_alias(const ipr::Name& n, const ipr::Expr& i) {
-         impl::Overload* ovl = overloads.insert(n, node_compare());
+         impl::Overload* ovl = overload_set(n);
          overload_entry* master = ovl->lookup(i.type());
 
          if (master == nullptr) {
@@ -1515,7 +1529,7 @@ namespace ipr::impl {
 
       impl::Var*
       Scope::make_var(const ipr::Name& n, const ipr::Type& t) {
-         impl::Overload* ovl = overloads.insert(n, node_compare());
+         impl::Overload* ovl = overload_set(n);
          overload_entry* master = ovl->lookup(t);
 
          if (master == nullptr) {
@@ -1532,7 +1546,7 @@ namespace ipr::impl {
 
       impl::Field*
       Scope::make_field(const ipr::Name& n, const ipr::Type& t) {
-         impl::Overload* ovl = overloads.insert(n, node_compare());
+         impl::Overload* ovl = overload_set(n);
          overload_entry* master = ovl->lookup(t);
 
          if (master == nullptr) {
@@ -1549,7 +1563,7 @@ namespace ipr::impl {
 
       impl::Bitfield*
       Scope::make_bitfield(const ipr::Name& n, const ipr::Type& t) {
-         impl::Overload* ovl = overloads.insert(n, node_compare());
+         impl::Overload* ovl = overload_set(n);
          overload_entry* master = ovl->lookup(t);
 
          if (master == nullptr) {
@@ -1569,7 +1583,7 @@ namespace ipr::impl {
       Scope::make_typedecl(const ipr::Name& n, const ipr::Type& t)
       {
          // Get the overload-set for this name.
-         impl::Overload* ovl = overloads.insert(n, node_compare());
+         impl::Overload* ovl = overload_set(n);
 
          // Does the overload-set already contain a decl with that type?
          overload_entry* master = ovl->lookup(t);
@@ -1583,7 +1597,7 @@ namespace ipr::impl {
       impl::Fundecl*
       Scope::make_fundecl(const ipr::Name& n, const ipr::Function& t)
       {
-         impl::Overload* ovl = overloads.insert(n, node_compare());
+         impl::Overload* ovl = overload_set(n);
          overload_entry* master = ovl->lookup(t);
 
          if (master == nullptr) {
@@ -1601,7 +1615,7 @@ namespace ipr::impl {
       impl::Template*
       Scope::make_primary_template(const ipr::Name& n, const ipr::Forall& t)
       {
-         impl::Overload* ovl = overloads.insert(n, node_compare());
+         impl::Overload* ovl = overload_set(n);
          overload_entry* master = ovl->lookup(t);
 
          if (master == nullptr) {
@@ -1621,7 +1635,7 @@ namespace ipr::impl {
       impl::Template*
       Scope::make_secondary_template(const ipr::Name& n, const ipr::Forall& t)
       {
-         impl::Overload* ovl = overloads.insert(n, node_compare());
+         impl::Overload* ovl = overload_set(n);
          overload_entry* master = ovl->lookup(t);
 
          if (master == nullptr) {
